@@ -787,11 +787,26 @@ fn wal_bytes(dir: &std::path::Path) -> u64 {
 }
 /// one column per batch: the packed size of a segment with several columns depends on the iteration order of a HashMap
 fn gate_batch(start: i64, n: usize) -> Batch { Batch { table: "g".into(), len: n as u64, cols: vec![("k".into(), ColRep::I64((start..start + n as i64).map(|i| i * 1_000_003).collect()))] } }
-fn gate_batches() -> Vec<Batch> { vec![canary_batch(), gate_batch(0, 8), gate_batch(8, 4), gate_batch(12, 8)] }
+fn gate_batches() -> Vec<Batch> { vec![canary_batch(), gate_batch(0, 60), gate_batch(60, 4), gate_batch(64, 8)] }
 
-/// nominal accounted size of a call whose segment was flushed before it could be measured (a segment's packed size varies
-/// by a few bytes from run to run — it contains a timestamp —, which is why no limit is derived from a calibration run)
-const NOMINAL_ADD: u64 = 100;
+/// Accounted size of each call of the gate scenario, measured on a database whose limit is never reached.  Only used as the
+/// NOMINAL size of a call whose segment was flushed before it could be measured: a segment's packed size varies by a few
+/// bytes from run to run (it contains a timestamp), so no limit is derived from it, and the batches are chosen so that no sum
+/// of nominal sizes comes within 20 bytes of a limit of the scenarios.
+fn gate_calibrate() -> Option<Vec<u64>> {
+    let dir = tempfile::tempdir().unwrap();
+    let opts = Options { threads: 1, db_path: Some(dir.path().to_path_buf()), ..base_options() };
+    let db = match with_deadline(DEADLINE, move || Arc::new(LocustDB::new(&opts))) { Some(Ok(db)) => db, _ => return None };
+    let mut sizes = vec![];
+    for b in gate_batches() {
+        let before = wal_bytes(dir.path());
+        let db2 = db.clone();
+        if !matches!(with_deadline(DEADLINE, move || ingest(&db2, &[b])), Some(Ok(()))) { return None; }
+        sizes.push(wal_bytes(dir.path()).saturating_sub(before));
+    }
+    drop(db);
+    Some(sizes)
+}
 
 #[derive(Clone, Debug)]
 enum GateLimit { /// fresh database with this limit
@@ -808,7 +823,7 @@ fn settle(dir: &std::path::Path, scale: u64) -> u64 {
 }
 
 /// one scenario; returns the rows and whether a call hung
-fn gate_once(n: usize, spec: &GateLimit, label: &str, scale: u64) -> (Vec<CaseRow>, bool) {
+fn gate_once(n: usize, spec: &GateLimit, label: &str, nominal: &[u64], scale: u64) -> (Vec<CaseRow>, bool) {
     let mut rows: Vec<CaseRow> = vec![];
     let dir = tempfile::tempdir().unwrap();
     let batches = gate_batches();
@@ -837,7 +852,7 @@ fn gate_once(n: usize, spec: &GateLimit, label: &str, scale: u64) -> (Vec<CaseRo
         let after = if out == "ok" { settle(dir.path(), scale) } else { wal_bytes(dir.path()) };
         // what the call added: readable while its segment is still there (no flush: after = size + add; the call waited for a
         // flush and its own segment stayed: after = add)
-        let add = if out == "ok" && after > size { after - size } else if out == "ok" && after > 0 { after } else { NOMINAL_ADD };
+        let add = if out == "ok" && after > size { after - size } else if out == "ok" && after > 0 { after } else { nominal[i] };
         rows.push((format!("gate:{}", label), format!("gate max={} size={} add={} obs={}|{}", limit, size, add, out, after),
                    format!("{} after={}", out, after), format!("n{} call {} limit {}", n, i, label)));
         if out != "ok" { hang = out == "hang"; break; }
@@ -858,15 +873,17 @@ fn gate_once(n: usize, spec: &GateLimit, label: &str, scale: u64) -> (Vec<CaseRo
 
 fn run_gate(cases: &mut Cases, rng: &mut Rng, thorough: bool) {
     if !only("gate") { return; }
+    let nominal = match gate_calibrate() { Some(v) => v, None => { cases.push("gate:calibration", "gate max=0 size=0 add=0 obs=hang|0", "hang", ""); return; } };
     let mut limits: Vec<(GateLimit, String)> = vec![(GateLimit::Abs(0), "0".into()), (GateLimit::Abs(1), "1".into())];
     for k in if thorough { vec![1usize, 2, 3] } else { vec![1usize, 2] } {
         for d in [-1i64, 0, 1] { limits.push((GateLimit::Recovered(k, d), format!("after{}{:+}", k, d))); }
     }
     let handles: Vec<_> = limits.into_iter().map(|(l, label)| {
         let n = 1 + rng.below(4) as usize;
+        let nominal = nominal.clone();
         std::thread::spawn(move || {
-            let (rows, hang) = gate_once(n, &l, &label, 1);
-            if hang { eprintln!("[c11] hang seen in gate:{} ({:?}), re-running with doubled deadlines", label, l); gate_once(n, &l, &label, 2).0 } else { rows }
+            let (rows, hang) = gate_once(n, &l, &label, &nominal, 1);
+            if hang { eprintln!("[c11] hang seen in gate:{} ({:?}), re-running with doubled deadlines", label, l); gate_once(n, &l, &label, &nominal, 2).0 } else { rows }
         })
     }).collect();
     for h in handles {
